@@ -77,12 +77,13 @@ Lemma lex_ident f rest :
   lex_go LIdle (f ++ rest) = oapp (Some [TId f]) (lex_go LIdle rest).
 Proof.
   unfold var_ok. destruct f as [|c r]; [discriminate|]. intros H Hr.
-  repeat (apply andb_prop in H; destruct H as [H ?]).
+  apply andb_prop in H. destruct H as [H Hk2]. apply andb_prop in H. destruct H as [H Hk1].
+  apply andb_prop in H. destruct H as [Ha Hs].
   cbn [append GramDefs.lex_go continues flush]. rewrite oapp_nil.
-  rewrite (alpha_not_blank _ H), H.
+  rewrite (alpha_not_blank _ Ha), Ha.
   rewrite lex_ident_run by assumption. cbn [append].
   unfold ident_token.
-  apply negb_true_iff in H0. apply negb_true_iff in H1. rewrite H1, H0. reflexivity.
+  apply negb_true_iff in Hk1. apply negb_true_iff in Hk2. rewrite Hk1, Hk2. reflexivity.
 Qed.
 
 Lemma brk_not_num c ae : brk c = true -> ae = false ->
@@ -100,7 +101,7 @@ Proof.
   induction r as [|c r IH]; intros acc ae rest Hn Hr.
   - cbn [num_chars_ok] in Hn. apply negb_true_iff in Hn. cbn [append]. rewrite sapp_nil_r.
     destruct rest as [|c r].
-    + reflexivity.
+    + cbn. destruct (real_dfa acc); reflexivity.
     + rewrite lex_break; [reflexivity|]. cbn [continues]. apply brk_not_num; assumption.
   - cbn [num_chars_ok] in Hn. apply andb_prop in Hn. destruct Hn as [Hc Hn].
     cbn [append GramDefs.lex_go continues]. rewrite Hc. cbn [extend]. rewrite IH by assumption.
@@ -112,10 +113,46 @@ Lemma lex_num s rest :
   lex_go LIdle (s ++ rest) = oapp (Some [TNum s]) (lex_go LIdle rest).
 Proof.
   unfold num_body_ok. destruct s as [|c r]; [discriminate|]. intros H Hr.
-  repeat (apply andb_prop in H; destruct H as [H ?]).
-  destruct (digit_not_alpha _ H) as [Ha Hb].
-  cbn [append GramDefs.lex_go continues flush]. rewrite oapp_nil. rewrite Hb, Ha, H.
-  rewrite lex_num_run by assumption. cbn [append]. rewrite H0. reflexivity.
+  apply andb_prop in H. destruct H as [H Hdfa]. apply andb_prop in H. destruct H as [Hd Hn].
+  destruct (digit_not_alpha _ Hd) as [Ha Hb].
+  cbn [append GramDefs.lex_go continues flush]. rewrite oapp_nil. rewrite Hb, Ha, Hd.
+  rewrite lex_num_run by assumption. cbn [append]. rewrite Hdfa. reflexivity.
 Qed.
 
 End LX.
+
+(** ** what the proofs use of the profile's strings (checked by computation for both built-in profiles) *)
+Definition strings_ok (L : lang) (p : profile) : Prop :=
+  plus_string p = "+" /\ minus_string p = "-" /\ times_string p = "*" /\ divide_string p = "/"
+  /\ eq_string p = (if is_C L then " == " else "eq_func")
+  /\ neq_string p = (if is_C L then " != " else "neq_func")
+  /\ lt_string p = (if is_C L then " < " else "lt_func")
+  /\ leq_string p = (if is_C L then " <= " else "leq_func")
+  /\ gt_string p = (if is_C L then " > " else "gt_func")
+  /\ geq_string p = (if is_C L then " >= " else "geq_func")
+  /\ and_string p = (if is_C L then " && " else "and_func")
+  /\ or_string p = (if is_C L then " || " else "or_func")
+  /\ not_string p = (if is_C L then "!" else "not_func")
+  /\ conditional_operator_if_string p =
+       (if is_C L then "([CONDITION])?[IF_STATEMENT]" else "[IF_STATEMENT] if [CONDITION]")
+  /\ conditional_operator_else_string p = (if is_C L then ":[ELSE_STATEMENT]" else " else [ELSE_STATEMENT]")
+  /\ var_ok (power_string p) = true /\ var_ok (square_root_string p) = true
+  /\ var_ok (natural_logarithm_string p) = true /\ var_ok (common_logarithm_string p) = true
+  /\ var_ok (inf_string p) = true /\ var_ok (nan_string p) = true
+  /\ num_body_ok (true_string p) = true /\ num_body_ok (false_string p) = true
+  /\ num_body_ok (e_string p) = true /\ num_body_ok (pi_string p) = true
+  /\ (forall t f, fun1_name p t = Some f -> var_ok f = true)
+  /\ (forall t f, fun2_name p t = Some f -> var_ok f = true).
+
+Lemma strings_C : strings_ok LC profile_C.
+Proof.
+  unfold strings_ok. repeat match goal with |- _ /\ _ => split end;
+    try (vm_compute; reflexivity);
+    intros t f; destruct t; vm_compute; intros H; try discriminate; inv H; reflexivity.
+Qed.
+Lemma strings_Py : strings_ok LPy profile_Py.
+Proof.
+  unfold strings_ok. repeat match goal with |- _ /\ _ => split end;
+    try (vm_compute; reflexivity);
+    intros t f; destruct t; vm_compute; intros H; try discriminate; inv H; reflexivity.
+Qed.
